@@ -286,8 +286,10 @@ func runC13(args []string) int {
 				if obs != nil && cls == "ok" && !strings.HasSuffix(mode, "-plain") {
 					base := 0
 					for _, hc := range obs.Hints {
-						if solver.HintID(hc.ID) == decompID && len(decCases) < 250 {
+						if solver.HintID(hc.ID) == decompID {
 							base = int(hc.In[1].Int64())
+						}
+						if solver.HintID(hc.ID) == decompID && len(decCases) < 250 {
 							decCases = append(decCases, fmt.Sprintf("(%d%%Z, %d%%Z, %s, %s)", hc.In[0].Int64(), hc.In[1].Int64(), zlit(hc.In[2]), zlist(hc.Out)))
 							if len(accCases) < 250 {
 								accCases = append(accCases, fmt.Sprintf("(%d%%Z, %d%%Z, %s, %s)", hc.In[1].Int64(), hc.In[0].Int64(), zlist(hc.Out), zlit(hc.In[2])))
@@ -303,7 +305,9 @@ func runC13(args []string) int {
 								qryCases = append(qryCases, fmt.Sprintf("(%d%%Z, %s, %s, %s)", base, zlist(ws), zlist(vals), zlist(hc.In[2+nbT:])))
 							}
 							if int(hc.In[0].Int64()) != 1<<uint(base) {
-								rep.Fail("c13:table-size", "the table of the range-check argument is not 0..2^b-1 for the limb width used by the decomposition", desc)
+								d := desc
+								d.Detail = fmt.Sprintf("table size %d, limb width %d", nbT, base)
+								rep.Fail("c13:table-size", "the table of the range-check argument is not 0..2^b-1 for the limb width used by the decomposition", d)
 							}
 						}
 					}
